@@ -70,6 +70,14 @@ impl fmt::Display for State {
     }
 }
 
+#[cfg(feature = "verif_hooks")]
+impl State {
+    /// Index of this state in the graph's state list (verification hook only).
+    pub fn index(&self) -> usize {
+        self.0
+    }
+}
+
 impl State {
     pub fn pascal_case(&self) -> String {
         format!("State{}", self.0)
